@@ -20,7 +20,8 @@ was really made under the receive key, with the complete header as associated da
   `other_source_node_rejected`, `group_message_attributed_to_sender` — direction / session / source
   node separation, with the hypothesis `decKey ≠ encKey` made explicit.
 * `postRecv_error_state`, `rejected_session_effect` — which rejection preserves what.
-* `roundtrip_unsecured`, `roundtrip_unsecured_new`, `roundtrip_group_first`.
+* `roundtrip_unsecured`, `roundtrip_unsecured_new`, `roundtrip_group_first`; `preSend_wf`, `presend_roundtrip`
+  (`pre_send` + `encode` → `decode`).
 -/
 namespace C03
 open SecureMsg
@@ -668,6 +669,135 @@ theorem roundtrip_group_first (E : Env) (n : Node) (from_ : Addr) (s : Session) 
   have ht : (Env.withRec E (mkRec s h payload ct)).t = mkRec s h payload ct :: E.t := rfl
   rw [ht, hv]
 
+/-! ## `pre_send` stamps a well-formed header: the round trip composed with the sender's stamping -/
+
+theorem or_and_self_right (o m : Nat) : (o ||| m) &&& m = m := by
+  apply Nat.eq_of_testBit_eq
+  intro i
+  simp only [Nat.testBit_and, Nat.testBit_or]
+  cases o.testBit i <;> cases m.testBit i <;> rfl
+
+theorem and3_and4 (o : Nat) : (o &&& (F_DSIZ_UNICAST ||| F_DSIZ_GROUP)) &&& F_SRC = 0 := by
+  rw [Nat.and_assoc]
+  have : (F_DSIZ_UNICAST ||| F_DSIZ_GROUP) &&& F_SRC = 0 := by decide
+  rw [this, Nat.and_zero]
+
+theorem fromBits_or {all a b : Nat} (ha : fromBits all a = true) (hb : fromBits all b = true) :
+    fromBits all (a ||| b) = true := by
+  unfold fromBits at *
+  simp only [beq_iff_eq] at *
+  rw [Nat.and_or_distrib_right, ha, hb]
+
+/-- the plain header `pre_send` stamps, as a function of the four decisions it takes -/
+def stamped (s : Session) (h : PacketHdr) : PlainHdr :=
+  let isGroup := s.isGroup
+  let isControl := isGroup && h.proto.isControlMsg
+  let withSrc := (!s.isEncrypted || isGroup) && s.localNode != 0
+  let withDst := (s.mode = .plain || isControl) && s.peerNode.isSome
+  { flags := (if withSrc then F_SRC else 0) ||| (if withDst then F_DSIZ_UNICAST else 0),
+    sessId := s.peerSid,
+    secFlags := if isGroup then h.plain.secFlags ||| S_GROUP ||| S_CONTROL else h.plain.secFlags,
+    ctr := s.txCtr,
+    src := if withSrc then s.localNode else 0,
+    dst := if withDst then s.peerNode.getD 0 else 0 }
+
+theorem preSend_eq {s : Session} {h h' : PacketHdr} {s' : Session} (hp : s.preSend h = .ok (h', s')) :
+    h' = { plain := stamped s h, proto := h.proto.adjustReliability s.addr } := by
+  unfold Session.preSend at hp
+  unfold stamped
+  cases hm : s.mode <;> by_cases hl : s.localNode = 0 <;> cases hc : h.proto.isControlMsg <;> cases hn : s.peerNode <;>
+    simp [Session.isEncrypted, Session.isGroup, hm, hl, hc, hn, or_and_self_right, and3_and4] at hp ⊢ <;>
+    (obtain ⟨hp, _⟩ := hp; rw [← hp])
+
+theorem stamped_srcLen (a b : Bool) :
+    srcLen ((if a = true then F_SRC else 0) ||| (if b = true then F_DSIZ_UNICAST else 0)) = if a = true then 8 else 0 := by
+  cases a <;> cases b <;> decide
+theorem stamped_dstLen (a b : Bool) :
+    dstLen ((if a = true then F_SRC else 0) ||| (if b = true then F_DSIZ_UNICAST else 0)) = if b = true then 8 else 0 := by
+  cases a <;> cases b <;> decide
+theorem stamped_flags (a b : Bool) :
+    fromBits MSGFLAGS_ALL ((if a = true then F_SRC else 0) ||| (if b = true then F_DSIZ_UNICAST else 0)) = true := by
+  cases a <;> cases b <;> decide
+
+theorem stamped_wf (s : Session) (h : PacketHdr) (hsid : s.peerSid < 256 ^ 2) (hctr : s.txCtr < 256 ^ 4)
+    (hln : s.localNode < 256 ^ 8) (hpn : s.peerNode.getD 0 < 256 ^ 8)
+    (hsf : fromBits SECFLAGS_ALL h.plain.secFlags = true) : (stamped s h).WF := by
+  unfold stamped
+  simp only
+  generalize ((!s.isEncrypted || s.isGroup) && s.localNode != 0) = ws
+  generalize ((decide (s.mode = .plain) || (s.isGroup && h.proto.isControlMsg)) && s.peerNode.isSome) = wd
+  refine ⟨stamped_flags ws wd, hsid, ?_, hctr, ?_, ?_⟩
+  · show fromBits SECFLAGS_ALL (if s.isGroup = true then h.plain.secFlags ||| S_GROUP ||| S_CONTROL else h.plain.secFlags) = true
+    split
+    · exact fromBits_or (fromBits_or hsf (by decide)) (by decide)
+    · exact hsf
+  · show (if ws = true then s.localNode else 0) < 256 ^ srcLen _
+    rw [stamped_srcLen]
+    cases ws
+    · exact (by decide : (0 : Nat) < 256 ^ 0)
+    · exact hln
+  · show (if wd = true then s.peerNode.getD 0 else 0) < 256 ^ dstLen _
+    rw [stamped_dstLen]
+    cases wd
+    · exact (by decide : (0 : Nat) < 256 ^ 0)
+    · exact hpn
+
+/-- **`pre_send` stamps a well-formed header**: for a session whose identifiers are in the ranges of
+their Rust types, what `Session::pre_send` leaves in the packet is a well-formed plain header — so
+`Session.encode` writes it without truncation — with the session's peer session id and send counter,
+and the protocol header with `adjust_reliability` applied. -/
+theorem preSend_wf {s : Session} {h h' : PacketHdr} {s' : Session} (hp : s.preSend h = .ok (h', s'))
+    (hsid : s.peerSid < 256 ^ 2) (hctr : s.txCtr < 256 ^ 4) (hln : s.localNode < 256 ^ 8)
+    (hpn : s.peerNode.getD 0 < 256 ^ 8) (hsf : fromBits SECFLAGS_ALL h.plain.secFlags = true) :
+    h'.plain.WF ∧ h'.proto = h.proto.adjustReliability s.addr ∧ h'.plain.sessId = s.peerSid ∧ h'.plain.ctr = s.txCtr := by
+  rw [preSend_eq hp]
+  exact ⟨stamped_wf s h hsid hctr hln hpn hsf, rfl, rfl, rfl⟩
+
+theorem adjust_flags_facts : ∀ f < 32, fromBits EXCHFLAGS_ALL f = true →
+    fromBits EXCHFLAGS_ALL (clearBits (clearBits f X_RELIABLE) X_ACK) = true ∧
+    vendorLen (clearBits (clearBits f X_RELIABLE) X_ACK) = vendorLen f ∧
+    ackLen (clearBits (clearBits f X_RELIABLE) X_ACK) = 0 := by decide
+
+theorem adjust_wf {p : ProtoHdr} (hw : p.WF) (a : Addr) : (p.adjustReliability a).WF := by
+  unfold ProtoHdr.adjustReliability
+  split
+  · have hlt : p.exchFlags < 32 := by
+      have := fromBits_lt hw.exchFlags
+      have h31 : EXCHFLAGS_ALL = 31 := by decide
+      omega
+    obtain ⟨h1, h2, h3⟩ := adjust_flags_facts p.exchFlags hlt hw.exchFlags
+    refine ⟨h1, hw.opcode, hw.exchId, hw.protoId, ?_, ?_⟩
+    · show p.vendor < 256 ^ vendorLen _
+      rw [h2]; exact hw.vendor
+    · show (0 : Nat) < 256 ^ ackLen _
+      rw [h3]; decide
+  · exact hw
+
+theorem adjust_congr (p : ProtoHdr) {a b : Addr} (h : a.isReliable = b.isReliable) :
+    p.adjustReliability a = p.adjustReliability b := by
+  unfold ProtoHdr.adjustReliability
+  rw [h]
+
+/-- **Round trip, composed with `pre_send`**: what `Session::pre_send` stamps and `Session::encode`
+writes for a secure session whose identifiers are in the ranges of their Rust types, the mirrored
+session (same transport kind) decodes to exactly the header `pre_send` left in the packet and the
+payload — every field, for every input header shape and payload. -/
+theorem presend_roundtrip (E : Env) (n : Node) (from_ : Addr) (idx : Nat) (s s' r : Session) (h h' : PacketHdr)
+    (payload ct : Bytes) (hp : s.preSend h = .ok (h', s'))
+    (hsid : s.peerSid < 256 ^ 2) (hctr : s.txCtr < 256 ^ 4) (hln : s.localNode < 256 ^ 8)
+    (hpn : s.peerNode.getD 0 < 256 ^ 8) (hsf : fromBits SECFLAGS_ALL h.plain.secFlags = true)
+    (hpw : h.proto.WF)
+    (hs : s.isEncrypted = true) (hr : r.isEncrypted = true)
+    (hkey : r.decKey = s.encKey) (hnode : r.peerNode.getD 0 = s.localNode)
+    (hrel : r.addr.isReliable = s.addr.isReliable)
+    (hfind : findRx n from_ h'.plain = some idx) (hidx : n[idx]? = some r) :
+    decodeStage (Env.withRec E (mkRec s h' payload ct)) n from_ (s.encode h' payload ct).1
+      = .decoded idx h' payload := by
+  obtain ⟨hwf, hproto, _, _⟩ := preSend_wf hp hsid hctr hln hpn hsf
+  have hadj : h'.proto = h.proto.adjustReliability r.addr := by rw [hproto]; exact adjust_congr _ hrel.symm
+  exact roundtrip_reliable E n from_ idx s r h' payload ct h.proto hadj hs hr hkey hnode hwf
+    (by rw [hadj]; exact adjust_wf hpw _) hfind hidx
+
 /-! ## Non-vacuity: the hypotheses of every implication above (and of the earlier per-session
 theorems, now on a **non-empty** table) are satisfiable on realistic states -/
 namespace Ex2
@@ -841,6 +971,17 @@ def w16 : World := { node := (List.range 16).map mk16, lru := (List.range 16).ma
 def dgReq : Bytes := hu.plain.encode ++ hu.proto.encode ++ [1, 2, 3]
 example : mk16 0 ∈ w16.node ∧ mk16 0 ∉ (handleRx {} 100 55 w16 (.udp (.v6 9) 9) dgReq).2.node ∧
     (handleRx {} 100 55 w16 (.udp (.v6 9) 9) dgReq).2.node.length = 15 := by decide
+/-- `presend_roundtrip`: the pair of `Ex`, the header as `pre_send` really stamps it (peer session id 20,
+the session's send counter, no source / destination node id on a CASE session) -/
+example : ∀ h' s', s.preSend h = .ok (h', s') →
+    decodeStage (Env.withRec {} (mkRec s h' pay ct)) [r] a1 (s.encode h' pay ct).1 = .decoded 0 h' pay := by
+  intro h' s' hp
+  have e : s.preSend h = .ok ({ plain := { sessId := 20, ctr := 0 }, proto := h.proto }, { s with txCtr := 1 }) := by decide
+  have hh : h' = { plain := { sessId := 20, ctr := 0 }, proto := h.proto } := by
+    rw [e] at hp; injection hp with hp; injection hp with h1 _; exact h1.symm
+  subst hh
+  exact presend_roundtrip {} [r] a1 0 s s' r h _ pay ct hp (by decide) (by decide) (by decide) (by decide) (by decide)
+    hproto (by decide) (by decide) (by decide) (by decide) (by decide) (by decide) (by decide)
 end Ex2
 
 end C03
